@@ -35,7 +35,11 @@ def gen_stack(ch, max_components=4):
             'routed': tgt < 4,
             'sink': tgt == 5,                                  # unrouted path served by a sink
             'split': ch.draw(n + 1, 'mw_split') if n else 0,   # components [split:] are added via add_middleware()
-            'class_hooks': [0, 0, 1, 2][ch.draw(4, 'class_hooks')]}   # 1: on the class, 2: responder inherited
+            'class_hooks': [0, 0, 1, 2][ch.draw(4, 'class_hooks')],   # 1: on the class, 2: responder inherited
+            # ASGI only: components with lifespan or WebSocket methods only, listed among the others
+            # (position in 0..n, kind); they take no part in HTTP processing
+            'aux': [(ch.draw(n + 1, 'aux_pos'), ch.choice(['lifespan', 'ws'], 'aux_kind'))
+                    for _ in range(ch.weighted([3, 1, 1], 'n_aux'))]}
 
 
 class Stack(object):
@@ -203,6 +207,20 @@ class Stack(object):
         if response_type is not None:
             kw['response_type'] = response_type
         split = plan.get('split', len(comps))
+        if self.asgi and plan.get('aux'):
+            async def process_startup(self, scope, event):
+                pass
+
+            async def process_request_ws(self, req, ws):
+                pass
+            marks = list(comps)
+            for pos, kind in sorted(plan['aux'], reverse=True):
+                aux = type('Aux', (object,), {'process_startup': process_startup} if kind == 'lifespan'
+                           else {'process_request_ws': process_request_ws})()
+                marks.insert(min(pos, len(marks)), aux)
+            # keep the constructor / add_middleware() split in front of the same component
+            split = marks.index(comps[split]) if split < len(comps) else len(marks)
+            comps = marks
         if comps and 0 < split < len(comps) + 1 and split != len(comps):
             app = cls(middleware=comps[:split], independent_middleware=plan['independent'], **kw)
             app.add_middleware(comps[split:])
